@@ -33,13 +33,18 @@ INVALID = {
     "evaluation": ["vectorblobs"], "bounds": ["overlap", "outofrange", "negative", "nonint"],
     "nParticles": ["zero", "neg", "float"], "nDim": ["zero", "neg", "float"],
 }
+# values the property's list does not classify (an integral-valued float, a numpy integer): either outcome is conforming -
+# rejected at construction, or accepted and then the run completes; accepted-then-fails-later is not
+UNSPECIFIED = {"nParticles": ["intfloat", "npint"], "nDim": ["intfloat", "npint"]}
 DEFAULT = {"kernel": "tpcn", "resampler": "mult", "clustering": "on", "normalize": "on", "clusterEvery": "1", "cap": "none",
            "split": "one", "metric": "ess2", "nSteps": "none", "nMaxSteps": "none", "evaluation": "scalar", "bounds": "none",
            "pool": "none", "saveEvery": "none", "nParticles": "small", "nDim": "two"}
 
 
 def concretize(c):
-    n_dim = {"two": 2, "three": 3, "zero": 0, "neg": -1, "float": 2.5}[c["nDim"]]
+    import numpy as _np
+
+    n_dim = {"two": 2, "three": 3, "zero": 0, "neg": -1, "float": 2.5, "intfloat": 2.0, "npint": _np.int64(2)}[c["nDim"]]
     nd = n_dim if isinstance(n_dim, int) and n_dim > 0 else 2
     conf = dict(
         n_dim=n_dim,
@@ -50,7 +55,7 @@ def concretize(c):
         split_threshold={"half": 0.5, "one": 1.0, "two": 2.0}[c["split"]],
         n_steps=None if c["nSteps"] == "none" else int(c["nSteps"]),
         n_max_steps=None if c["nMaxSteps"] == "none" else int(c["nMaxSteps"]),
-        n_particles={"small": 8, "default": None, "zero": 0, "neg": -4, "float": 8.5}[c["nParticles"]],
+        n_particles={"small": 8, "default": None, "zero": 0, "neg": -4, "float": 8.5, "intfloat": 8.0, "npint": _np.int64(8)}[c["nParticles"]],
     )
     conf.update({"ess1": dict(ess_ratio=1.0), "ess2": dict(ess_ratio=2.0), "vvsmall": dict(volume_variation=0.2), "vvbig": dict(volume_variation=5.0),
                  "ess0": dict(ess_ratio=0.0), "essneg": dict(ess_ratio=-1.0), "vv0": dict(volume_variation=0.0), "vvneg": dict(volume_variation=-0.5),
@@ -130,6 +135,17 @@ def _run_one(job):
         shutil.rmtree(out_dir, ignore_errors=True)
         return res
     valid = all(c[f] in DOMAIN[f] for f in DOMAIN)
+    if any(c[f] in UNSPECIFIED.get(f, ()) for f in DOMAIN):
+        # accepted at construction: it must then run (no trace: the abstract option value is outside the system spec's lattice)
+        try:
+            s.run(n_total=job["n_total"], progress=False)
+            res["outcome"] = "done"
+        except Exception as ex:
+            res["outcome"] = "raised"
+            res["error"] = repr(ex)[:200]
+        res["evals"] = rec.evals
+        shutil.rmtree(out_dir, ignore_errors=True)
+        return res
     if not valid:
         res["outcome"] = "constructed"
         res["evals"] = rec.evals
@@ -168,13 +184,15 @@ def main():
     for i, r in enumerate(rows):
         jobs.append({"cfg": r, "seed": 1800 + i + 1000 * ck.seed, "label": "valid#%d" % i, "n_total": 24, "scratch": scratch})
     rnd = random.Random(ck.seed + 181)
-    for f, vals in INVALID.items():
+    for f, vals in list(INVALID.items()) + list(UNSPECIFIED.items()):
         for v in vals:
             # the invalid value with every other option at its default, and substituted into a few rows of the valid array
             # (an invalid value must be rejected whatever the other, valid, options are)
             for base in [DEFAULT] + rnd.sample(rows, min(3 if ck.tier == "quick" else 12, len(rows))):
                 c = dict(base)
                 c[f] = v
+                if v in UNSPECIFIED.get(f, ()) and base is not DEFAULT:
+                    continue
                 jobs.append({"cfg": c, "seed": 1, "label": f"invalid:{f}={v}", "n_total": 24, "scratch": scratch})
     results = [None] * len(jobs)
     with cf.ProcessPoolExecutor(max_workers=sysrun.PROCS, mp_context=mp.get_context("fork")) as ex:
